@@ -51,6 +51,18 @@ def hostile_lines(rng, n):
             seed = rng.choice(SEEDS[fn])
             x = mutate(rng, seed) if k % 8 else bytes(rng.getrandbits(8) for _ in range(rng.choice([0, 1, 3, 20, 200])))
             lines.append("%s\t%s" % (fn, hx(x))); meta.append((fn, x))
+    # dates: every boundary day x time of day x zone spelling (a parser that starts accepting zones must still not panic at
+    # the ends of the representable range), in the IMF-fixdate, RFC 850 and asctime layouts
+    days = [("Thu", "01", "Jan", "1970"), ("Wed", "31", "Dec", "1969"), ("Fri", "31", "Dec", "9999"), ("Sat", "01", "Jan", "10000"), ("Mon", "29", "Feb", "2016"),
+            ("Wed", "29", "Feb", "2017"), ("Tue", "15", "Nov", "1994"), ("Thu", "01", "Jan", "0000"), ("Fri", "01", "Jan", "1971"), ("Thu", "30", "Dec", "9999"), ("Fri", "02", "Jan", "1970")]
+    times = ["00:00:00", "00:30:00", "23:59:59", "23:59:60", "24:00:00", "12:00:00", "00:00:01", "23:30:00"]
+    zones = ["GMT", "UT", "Z", "+0000", "-0000", "+0100", "-0100", "+0001", "-0001", "+2359", "-2359", "+1400", "-1200", "+9999", "-9999", "EST", "PDT", "A", "+24:00", "+01", "", "UTC"]
+    for (wd, d, mo, y) in days:
+        for t in times:
+            for z in zones:
+                for txt in ("%s, %s %s %s %s %s" % (wd, d, mo, y, t, z), "%sday, %s-%s-%s %s %s" % (wd, d, mo, y[-2:], t, z))[: 2 if z in ("GMT", "+0100", "-0001") else 1]:
+                    x = txt.strip().encode()
+                    lines.append("c19.date_parse\t%s" % hx(x)); meta.append(("c19.date_parse", x))
     # header values / names / file names, bodies
     for k in range(n):
         v = mutate(rng, rng.choice([b"Hello world", "Grüße".encode(), b"a" * 100, b"x  y\tz"]))
